@@ -9,6 +9,7 @@ import (
 	"image/color"
 	"image/gif"
 	"io"
+	"strings"
 
 	"github.com/wader/fq/internal/verif/core"
 )
@@ -246,10 +247,99 @@ type wavSpec struct {
 	// ListAfter: a second LIST/INFO chunk behind the data chunk (metadata written last, as
 	// many encoders do)
 	ListAfter bool `json:"list_after,omitempty"`
+	// Fmt: header field grid file: the six fields of the fmt chunk are written exactly
+	// as given (Channels/Bits above unused, Samples*4 bytes of sample data).
+	Fmt *wavFmt `json:"fmt,omitempty"`
+}
+
+// wavFmt: the WAVEFORMAT fields of the fmt chunk.
+type wavFmt struct {
+	AudioFormat uint16 `json:"audio_format"`
+	Channels    uint16 `json:"channels"`
+	Rate        uint32 `json:"rate"`
+	ByteRate    uint32 `json:"byte_rate"`
+	Align       uint16 `json:"align"`
+	Bits        uint16 `json:"bits"`
+}
+
+var wavDefaultFmt = wavFmt{AudioFormat: 1, Channels: 2, Rate: 44100, ByteRate: 176400, Align: 4, Bits: 16}
+
+var u16Grid = []uint16{0, 1, 0x7fff, 0x8000, 0xffff, 0x5555, 0xaaaa}
+
+// a few registered format tags (mmreg.h: WAVE_FORMAT_PCM, _ADPCM, _IEEE_FLOAT, _ALAW, _MULAW): the key word the
+// name fq shows must contain (fq uses codec names of its own, compared lower case without punctuation)
+var wavTagNames = map[uint16]string{1: "pcm", 2: "adpcm", 3: "float", 6: "alaw", 7: "mulaw"}
+
+// wavFmtGrid: quick = covering list (every value of every field once, the others at a
+// common PCM default) with realistic rates/channel counts/sample sizes added;
+// thorough adds the pair products channels x bits x align and rate x byte_rate.
+func wavFmtGrid(wide bool) []wavFmt {
+	var l []wavFmt
+	seen := map[wavFmt]bool{}
+	add := func(f wavFmt) {
+		if !seen[f] {
+			seen[f] = true
+			l = append(l, f)
+		}
+	}
+	d := wavDefaultFmt
+	tags := append([]uint16{1, 2, 3, 6, 7, 0x55, 0xfffe}, u16Grid...)
+	chans := append([]uint16{1, 2, 6, 8, 255, 256}, u16Grid...)
+	bits := append([]uint16{8, 16, 24, 32, 64}, u16Grid...)
+	aligns := append([]uint16{1, 2, 3, 4, 8}, u16Grid...)
+	rates := append([]uint32{8000, 11025, 44100, 48000, 96000, 192000}, u32Grid...)
+	for _, v := range tags {
+		f := d
+		f.AudioFormat = v
+		add(f)
+	}
+	for _, v := range chans {
+		f := d
+		f.Channels = v
+		add(f)
+	}
+	for _, v := range bits {
+		f := d
+		f.Bits = v
+		add(f)
+	}
+	for _, v := range aligns {
+		f := d
+		f.Align = v
+		add(f)
+	}
+	for _, v := range rates {
+		f := d
+		f.Rate = v
+		add(f)
+		f = d
+		f.ByteRate = v
+		add(f)
+	}
+	if wide {
+		for _, a := range chans {
+			for _, b := range bits {
+				for _, c := range aligns {
+					f := d
+					f.Channels, f.Bits, f.Align = a, b, c
+					add(f)
+				}
+			}
+		}
+		for _, a := range append(rates, walk32()...) {
+			for _, b := range rates {
+				f := d
+				f.Rate, f.ByteRate = a, b
+				add(f)
+			}
+		}
+	}
+	return l
 }
 
 type wavExp struct {
 	Spec     wavSpec
+	Fmt      wavFmt
 	Samples  []byte
 	RiffSize int
 	Title    string
@@ -270,15 +360,21 @@ func wavBuild(spec any) *genFile {
 	sp := spec.(*wavSpec)
 	exp := &wavExp{Spec: *sp, Title: "title"}
 	align := sp.Channels * sp.Bits / 8
+	wf := wavFmt{AudioFormat: 1, Channels: uint16(sp.Channels), Rate: 44100, ByteRate: uint32(44100 * align), Align: uint16(align), Bits: uint16(sp.Bits)}
+	if sp.Fmt != nil {
+		wf, align = *sp.Fmt, 4
+		exp.Spec.Fmt = &wf
+	}
+	exp.Fmt = wf
 	exp.Samples = lcg(sp.Samples*align, 4242)
 	var fm bytes.Buffer
 	le := binary.LittleEndian
-	_ = binary.Write(&fm, le, uint16(1))
-	_ = binary.Write(&fm, le, uint16(sp.Channels))
-	_ = binary.Write(&fm, le, uint32(44100))
-	_ = binary.Write(&fm, le, uint32(44100*align))
-	_ = binary.Write(&fm, le, uint16(align))
-	_ = binary.Write(&fm, le, uint16(sp.Bits))
+	_ = binary.Write(&fm, le, wf.AudioFormat)
+	_ = binary.Write(&fm, le, wf.Channels)
+	_ = binary.Write(&fm, le, wf.Rate)
+	_ = binary.Write(&fm, le, wf.ByteRate)
+	_ = binary.Write(&fm, le, wf.Align)
+	_ = binary.Write(&fm, le, wf.Bits)
 	body := []byte("WAVE")
 	body = append(body, riffChunk("fmt ", fm.Bytes())...)
 	if sp.List {
@@ -292,10 +388,18 @@ func wavBuild(spec any) *genFile {
 	data := riffChunk("RIFF", body)
 	f := &genFile{Data: data, Exp: exp, Nontriv: sp.Samples > 0 || sp.List || sp.ListAfter}
 	f.Desc = fmt.Sprintf("channels=%d bits=%d samples=%d list=%v list_after_data=%v", sp.Channels, sp.Bits, sp.Samples, sp.List, sp.ListAfter)
+	if sp.Fmt != nil {
+		f.Desc = fmt.Sprintf("fmt(audio_format=%d channels=%d rate=%d byte_rate=%d align=%d bits=%d) samples=%d", wf.AudioFormat, wf.Channels, wf.Rate, wf.ByteRate, wf.Align, wf.Bits, sp.Samples)
+		f.Nontriv = true
+	}
 	return f
 }
 
 func wavEnum(r *core.Run, emit func(any)) {
+	for _, wf := range wavFmtGrid(r.Thorough()) {
+		wf := wf
+		emit(&wavSpec{Samples: 3, Fmt: &wf})
+	}
 	for _, ch := range []int{1, 2} {
 		for _, bits := range []int{8, 16} {
 			for _, n := range []int{0, 1, 100} {
@@ -339,7 +443,6 @@ func wavCheck(f *genFile, o map[string]any, probe bool) []mm {
 		c.add("chunk-count", fmt.Sprintf("fq reports %d chunks, written %d", len(cs), len(want)))
 		return c.ms
 	}
-	align := sp.Channels * sp.Bits / 8
 	for i, id := range want {
 		g, _ := cs[i].(map[string]any)
 		if g == nil {
@@ -350,12 +453,18 @@ func wavCheck(f *genFile, o map[string]any, probe bool) []mm {
 		switch id {
 		case "fmt":
 			c.num("fmt.size", g["size"], 16)
-			c.num("fmt.audio_format", g["af"], 1)
-			c.num("fmt.num_channels", g["nch"], int64(sp.Channels))
-			c.num("fmt.sample_rate", g["rate"], 44100)
-			c.num("fmt.byte_rate", g["brate"], int64(44100*align))
-			c.num("fmt.block_align", g["align"], int64(align))
-			c.num("fmt.bits_per_sample", g["bits"], int64(sp.Bits))
+			wf := exp.Fmt
+			c.num("fmt.audio_format", g["af"], int64(wf.AudioFormat))
+			if want, ok := wavTagNames[wf.AudioFormat]; ok {
+				if got, _ := gs(g["af_sym"]); !strings.Contains(normName(got), want) {
+					c.add(fmt.Sprintf("fmt.audio_format.sym:%d", wf.AudioFormat), fmt.Sprintf("audio_format %d: fq shows the name %s, registered as %s", wf.AudioFormat, show(g["af_sym"]), want))
+				}
+			}
+			c.num("fmt.num_channels", g["nch"], int64(wf.Channels))
+			c.num("fmt.sample_rate", g["rate"], int64(wf.Rate))
+			c.num("fmt.byte_rate", g["brate"], int64(wf.ByteRate))
+			c.num("fmt.block_align", g["align"], int64(wf.Align))
+			c.num("fmt.bits_per_sample", g["bits"], int64(wf.Bits))
 		case "LIST":
 			c.num("LIST.size", g["size"], int64(4+8+len(exp.Title)+1+(len(exp.Title)+1)%2))
 			c.str("LIST.type", g["type"], "INFO")
